@@ -172,6 +172,18 @@ def run(ctx):
                      construct="%s footprint empty" % f.qual)
         else:
             ctx.inst("N3", f, f.qual, "reads only the %s direction" % "/".join(sorted(got)))
+    # ---- N4: commonancestors treats all its arguments alike
+    ca = p.modfunc(UTIL, "commonancestors")
+    ft_ca = typer.results.get(ca)
+    read = {}
+    for n_ in walk_own(ca.node):
+        if isinstance(n_, ast.Attribute) and isinstance(n_.ctx, ast.Load) and ft_ca is not None and has_node(ft_ca.type_of(n_.value)):
+            read.setdefault(n_.attr, []).append(n_)
+    if set(read) == {"ancestors"}:
+        ctx.inst("N4", ca, read["ancestors"][0], "every argument contributes its `ancestors` chain (and nothing else)")
+    else:
+        ctx.viol("N4", ca, ca.node, "commonancestors reads %s of its arguments; by definition it is the common prefix of the `ancestors` chains "
+                 "of all of them alike" % sorted(read), construct="commonancestors reads %s" % sorted(read))
     ctx.floor("N1", 30)
     ctx.floor("N2", 8)
     ctx.floor("N3", 30)
